@@ -144,7 +144,20 @@ fn run_dna(case: u64, rng: &mut Rng, rep: &mut Report) {
     let k = 5;
     let m = if rng.chance(0.6) { rng.range(8, 40) } else { rng.range(1, 12) };
     let fam = rng.below(7);
-    let (rows, fam_name) = gen_c08_matrix(rng, k, m, fam);
+    let (mut rows, fam_name) = gen_c08_matrix(rng, k, m, fam);
+    if m >= 3 && rng.chance(0.15) {
+        // a spacer / uninformative position: all regular symbols score the same there (the row
+        // discretises to all zeros), wildcard not above them; never the last row only
+        for _ in 0..rng.range(1, 2) {
+            let i = rng.below(m - 1);
+            let v = *rng.pick(&[0.0f32, -0.5, 1.25]);
+            for j in 0..4 {
+                rows[i][j] = v;
+            }
+            rows[i][4] = if rng.chance(0.5) { f32::NEG_INFINITY } else { v };
+        }
+        rep.cover("class.flat_position_inside_motif");
+    }
     let l = match rng.below(5) {
         4 => {
             rep.cover("class.L=M_or_M+1");
